@@ -135,6 +135,15 @@ pub fn obj_at(i: ObjId) -> Obj {
         }
     }
 }
+/// Python equality of two leaf objects: `str`/`bytes` compare by CONTENT (the address they were built from is
+/// irrelevant), everything else structurally.
+pub fn leaf_same(a: &Leaf, b: &Leaf) -> bool {
+    match (a, b) {
+        (Leaf::Str(x), Leaf::Str(y)) | (Leaf::Bytes(x), Leaf::Bytes(y)) => x.len == y.len && x.data == y.data,
+        _ => a == b,
+    }
+}
+
 /// Leaf stored at `i` (None object if `i` is not a leaf).
 pub fn leaf_at(i: ObjId) -> Leaf {
     match obj_at(i) {
@@ -497,7 +506,7 @@ pub mod types {
                     if i < s.n {
                         if let Item::Pair(ek, _) = s.items[i] {
                             // keys are str objects: equal keys = equal text
-                            if !found && leaf_at(ek) == kl {
+                            if !found && leaf_same(&leaf_at(ek), &kl) {
                                 s.items[i] = Item::Pair(ek, v);
                                 found = true;
                             }
